@@ -55,7 +55,7 @@ func (w *c15World) gapChanges(g *c15Gen, k int) []c15Ev {
 			w.carriers[ck][key] = true
 			g.present[p][id] = true
 			evs = append(evs, c15Ev{key: key, val: val})
-			w.ops = append(w.ops, c15Op{Op: "gap-put", K: id, V: val})
+			w.ops = append(w.ops, c15Op{Op: "gap-put", K: id, V: val + map[bool]string{true: "(empty string)"}[val == ""]})
 		} else if len(present) > 0 {
 			id := present[w.r.Intn(len(present))]
 			delete(g.present[p], id)
